@@ -21,7 +21,7 @@ RULE = ("case = one generated project (1-4 source files in four size classes, 1-
         "sites biased to scratch writes/renames/post-rename operations, thorough sweeps every k x action. "
         "An evaluation is one faulted run; it is non-trivial when the planned fault actually fired; distinct = distinct "
         "(world, k, action, errno).")
-PROBES = ["unseen_ops_fail", "exdev_then_second_event", "aftermath_history", "two_fault_plan", "multi_drain", "kill_with_scratch_open", "fault_after_first_rename", "exdev_rename", "kill_mid_write"]
+PROBES = ["no_scratch_possible", "unseen_ops_fail", "exdev_then_second_event", "aftermath_history", "two_fault_plan", "multi_drain", "kill_with_scratch_open", "fault_after_first_rename", "exdev_rename", "kill_mid_write"]
 ASSUMPTIONS = ["process death = SIGKILL at an operation boundary or inside a write; only what the kernel has survives "
                "(no power-loss model)",
                "the fault-free twin defines the complete updated content (insertion offsets; ID values free)"]
@@ -38,6 +38,11 @@ def gen(rng):
     sizes = [["tiny", "tiny", "k8"], ["tiny", "tiny", "k8"], ["tiny", "k8", "k64"], ["tiny", "k8", "k64"], ["k8", "k64"],
              ["k8", "k64", "k256"]][rng.randrange(6)]
     wm = world.gen_world_model(rng, nfiles=rng.randrange(1, 4), sizes=sizes, p_have=0.3, max_stmts=5, min_missing=1)
+    if rng.random() < 0.3:
+        # every source file has a "<name>.tmp" neighbour (and one more sibling) that belongs to the user
+        for p in sorted(wm["files"]):
+            wm["extra"].setdefault(p + ".tmp", {"t": "f", "mode": 0o644, "data": b"user notes kept next to " + p.encode() + b"\n"})
+            wm["extra"].setdefault(p + rng.choice([".bak", "~", ".orig"]), {"t": "f", "mode": 0o600, "data": b"older copy\n"})
     knobs = {"threads": rng.randrange(1, 5), "config_arg": rng.choice(["rel", "abs"])}
     knobs = scen.env_knobs(rng, knobs)
     plan = {"seed": rng.getrandbits(48) | 1, "perm": True, "faults": []}
@@ -137,6 +142,14 @@ def run_case(rng, idx, tier, ctx):
             viols += evaluate(wm, knobs, {"seed": base["seed"], "perm": base["perm"], "faults": [exdev, f2]}, ctx, twin)
             ctx.probes["exdev_then_second_event"] += 1
             ctx.nontrivial.add("%d.xd.%d.%s" % (idx, k2, f2["act"]))
+    # no scratch file can be created in TMPDIR at all (missing, read-only, full), alone and followed by a kill: whatever an
+    # implementation falls back to, source files stay original-or-updated and nobody else's file is used up
+    nosc = {"from": 1, "kinds": ["OPEN_W"], "pre": "tmp/", "act": "fail", "errno": rng.choice(["EACCES", "ENOSPC", "EROFS"])}
+    viols += evaluate(wm, knobs, {"seed": base["seed"], "perm": base["perm"], "faults": [nosc]}, ctx, twin)
+    k2 = rng.randrange(1, K + 20)
+    viols += evaluate(wm, knobs, {"seed": base["seed"], "perm": base["perm"],
+                                  "faults": [nosc, {"k": k2, "act": rng.choice(["kill_before", "kill_after"])}]}, ctx, twin)
+    ctx.probes["no_scratch_possible"] += 1
     uf = scen.unseen_ops_fault(rng, ops)
     if uf:
         viols += evaluate(wm, knobs, {"seed": base["seed"], "perm": base["perm"], "faults": [uf]}, ctx, twin)
